@@ -426,7 +426,7 @@ func alphabet(door string, big bool) (ops []op, targets []string) {
 	masks := []string{"normal"}
 	if big {
 		targets = []string{"a0", "a1", "c0", "c1"}
-		masks = []string{"normal", "none", "empty"}
+		masks = []string{"normal", "none", "empty", "title+normal"}
 	}
 	d := func(kind string) string {
 		if door == "server" && hasRPC(kind) {
@@ -527,7 +527,7 @@ func genOp(rng *vk.Rand, doorMode string, targets []string, allowUpdateNormalOn 
 		o.Target = fixedIDs[rng.Intn(len(fixedIDs))]
 		o.Normal = rng.Chance(1, 3)
 	case "update":
-		o.Mask = rng.PickStr("normal", "normal", "title", "none", "empty")
+		o.Mask = rng.PickStr("normal", "normal", "title", "none", "empty", "title+normal")
 		o.Normal = rng.Bool()
 		if !allowUpdateNormalOn && o.Mask != "title" && o.Mask != "empty" {
 			o.Normal = false
